@@ -9,6 +9,21 @@ CLAIMS = {
                  'natural level; liveness (a silent helper) is not decided.',
         'technique': 'CFG must-pass / gate / handler-coverage rules + who-may-read/write + tuple-shape agreement (ast)',
     },
+    'C12': {
+        'level': 'Whole-package inventory of code-execution sinks and host-state writers by resolved callee (every call site classified), '
+                 'who-may-call on the one real importer chain, gate/flow on the safe-path filter of _load_builtin_module, undotted '
+                 'find_spec arguments, and PAIR on the two sys.path swaps. The property is a negative over all code paths, which a '
+                 'who-may-call + dominance analysis decides for the mechanism; what the target interpreter and importlib do is assumed.',
+        'technique': 'sink inventory over resolved call sites + who-may-call + CFG gate/pair rules (ast)',
+    },
+    'C13': {
+        'level': 'Every operation in compiled/access.py and compiled/mixed.py that runs a listed user protocol on a live object (S1: '
+                 'getattr/hasattr with a supplied name; S2: subscript, iteration, call, len, next, truth value) must be dominated by an '
+                 'exact-builtin-type gate or the safe switch, in the method or at all call sites; wiring of the switch, content of the two '
+                 'allow-tables, getattr_static classification and completeness of dir()-names are checked structurally. Three genuine '
+                 'ungated sinks are recorded as known findings.',
+        'technique': 'protocol-sink detection on live-object expressions + CFG edge-dominance (gate) rules + table checks (ast)',
+    },
 }
 
 WIP = 'check not built yet in this session (work in progress; see DESIGN.md section 4 for the planned rules)'
